@@ -750,6 +750,11 @@ func (c *Conn) recv(ctx context.Context) error {
 		if _, ok := err.(net.Error); ok {
 			return err
 		}
+		if _, ok := err.(*frameReadError); ok {
+			// the body was not read in full (readFrame wraps the net error):
+			// what follows on the connection is not a frame header
+			return err
+		}
 	}
 
 	// we either, return a response to the caller, the caller timedout, or the
